@@ -273,6 +273,8 @@ class Sim:
                 i = e["f"]
                 if isinstance(v, (Adt, Tup)):
                     v = v.fields[i] if i < len(v.fields) else UNK
+                elif isinstance(v, Closure):
+                    v = v.captures[i] if i < len(v.captures) else UNK
                 elif isinstance(v, Part):
                     v = v.fields.get(i, UNK)
                 else:
@@ -713,6 +715,12 @@ class Sim:
                     return outs
                 if kind == "skip":
                     return [cont(r[1])]
+                if kind == "inline":
+                    return self._inline(fn, env, bb, t, path, depth, r[1], args, cont)
+        # higher-order std adaptors applied to known closures
+        ho = self._higher_order(fn, env, bb, t, args, path, depth, cont, ev)
+        if ho is not None:
+            return ho
         # builtin models
         m = self._builtin(t, names, args, path)
         if m is not None:
@@ -729,36 +737,107 @@ class Sim:
         if target and c.get("resolved_kind", "Item") == "Item":
             callee_fn = self.find_fn(target, c.get("resolved_crate") or c.get("crate"))
         if callee_fn is not None and depth < self.max_depth and self.inline(fn, callee_fn):
-            path.events.append(("enter", callee_fn.path, fn.path, bb))
-            amap = {i + 1: a for i, a in enumerate(args)}
-            sub = self._run_fn(callee_fn, amap, path, depth + 1)
-            outs = []
-            # each sub path shares nothing with siblings except what _clone copied;
-            # the *first* returned path continues with `env`, the others need copies of env
-            first = True
-            for sp in sub:
-                if sp.end == "return":
-                    sp.events.append(("leave", callee_fn.path))
-                    rv = sp.ret
-                    sp.end = None
-                    sp.ret = UNK
-                    if first:
-                        outs.append(cont(rv, sp, env))
-                        first = False
-                    else:
-                        memo = {}
-                        e2 = self._copy_env(env, memo)
-                        outs.append(cont(self._copy_val(rv, memo), sp, e2))
-                else:
-                    outs.append((env, sp, None))
-            return outs
+            return self._inline(fn, env, bb, t, path, depth, callee_fn, args, cont)
         path.events.append(ev)
         return [cont(UNK)]
+
+    def _inline(self, fn, env, bb, t, path, depth, callee_fn, args, cont):
+        path.events.append(("enter", callee_fn.path, fn.path, bb))
+        amap = {i + 1: a for i, a in enumerate(args)}
+        sub = self._run_fn(callee_fn, amap, path, depth + 1)
+        outs = []
+        first = True
+        for sp in sub:
+            if sp.end == "return":
+                sp.events.append(("leave", callee_fn.path))
+                rv = sp.ret
+                sp.end = None
+                sp.ret = UNK
+                if first:
+                    outs.append(cont(rv, sp, env))
+                    first = False
+                else:
+                    memo = {}
+                    e2 = self._copy_env(env, memo)
+                    outs.append(cont(self._copy_val(rv, memo), sp, e2))
+            else:
+                outs.append((env, sp, None))
+        return outs
+
+    def call_closure(self, clo, cargs, fn, env, bb, t, path, depth, cont):
+        """Invoke a closure / fn item value with argument list cargs; returns outs or None."""
+        if isinstance(clo, Closure):
+            cf = self.find_fn(clo.path)
+            if cf is None or depth >= self.max_depth:
+                return None
+            # closure MIR: _1 = the closure (or a reference to it), _2.. = args
+            return self._inline(fn, env, bb, t, path, depth, cf, [clo] + list(cargs), cont)
+        if isinstance(clo, FnItem):
+            cf = self.find_fn(clo.path)
+            if cf is None or depth >= self.max_depth:
+                return None
+            return self._inline(fn, env, bb, t, path, depth, cf, list(cargs), cont)
+        return None
 
     def _deref(self, v, path):
         while isinstance(v, Ref):
             v = self._read_ref(v, path)
         return v
+
+    def _higher_order(self, fn, env, bb, t, args, path, depth, cont, ev):
+        p = t["callee"].get("path", "")
+        if len(args) < 2:
+            return None
+        x = self._deref(args[0], path)
+        f = args[1]
+        if not isinstance(f, (Closure, FnItem)) or not isinstance(x, Adt):
+            return None
+        R, O = "std::result::Result::<T, E>::", "std::option::Option::<T>::"
+
+        def wrap_cont(mk):
+            def c2(val, p2=path, e2=env):
+                return cont(mk(val), p2, e2)
+            return c2
+
+        if p == R + "and_then":
+            if x.variant == 1:
+                return [cont(Adt(x.adt, 1, x.fields))]
+            return self.call_closure(f, [x.fields[0]], fn, env, bb, t, path, depth, cont)
+        if p == O + "and_then":
+            if x.variant == 0:
+                return [cont(Adt(x.adt, 0, []))]
+            return self.call_closure(f, [x.fields[0]], fn, env, bb, t, path, depth, cont)
+        if p == R + "map":
+            if x.variant == 1:
+                return [cont(Adt(x.adt, 1, x.fields))]
+            return self.call_closure(f, [x.fields[0]], fn, env, bb, t, path, depth,
+                                     wrap_cont(lambda v: Adt("std::result::Result", 0, [v])))
+        if p == R + "map_err":
+            if x.variant == 0:
+                return [cont(Adt(x.adt, 0, x.fields))]
+            return self.call_closure(f, [x.fields[0]], fn, env, bb, t, path, depth,
+                                     wrap_cont(lambda v: Adt("std::result::Result", 1, [v])))
+        if p == R + "or_else":
+            if x.variant == 0:
+                return [cont(Adt(x.adt, 0, x.fields))]
+            return self.call_closure(f, [x.fields[0]], fn, env, bb, t, path, depth, cont)
+        if p == O + "map":
+            if x.variant == 0:
+                return [cont(Adt(x.adt, 0, []))]
+            return self.call_closure(f, [x.fields[0]], fn, env, bb, t, path, depth,
+                                     wrap_cont(lambda v: Adt("std::option::Option", 1, [v])))
+        if p == O + "ok_or_else":
+            if x.variant == 1:
+                return [cont(Adt("std::result::Result", 0, [x.fields[0]]))]
+            return self.call_closure(f, [], fn, env, bb, t, path, depth,
+                                     wrap_cont(lambda v: Adt("std::result::Result", 1, [v])))
+        if p == O + "unwrap_or_else":
+            if x.variant == 1:
+                return [cont(x.fields[0])]
+            return self.call_closure(f, [], fn, env, bb, t, path, depth, cont)
+        if p == O + "map_or":
+            return None
+        return None
 
     def _builtin(self, t, names, args, path):
         c = t["callee"]
@@ -784,6 +863,13 @@ class Sim:
             return ("value", UNK)
         if has("std::ops::FromResidual::from_residual"):
             a = d[0] if d else UNK
+            s0 = substs[0] if substs else ""
+            if s0.startswith("std::result::Result"):
+                # the residual of a Result is always its Err
+                pay = a.fields[0] if isinstance(a, Adt) and a.fields else UNK
+                return ("value", Adt("std::result::Result", 1, [pay]))
+            if s0.startswith("std::option::Option"):
+                return ("value", Adt("std::option::Option", 0, []))
             if isinstance(a, Adt):
                 return ("value", Adt(a.adt, a.variant, a.fields))
             return ("value", UNK)
